@@ -549,7 +549,6 @@ func clampedBy(c *Ctx, r *engine.Result, v ssa.Value, x, hi, tooBig string) (boo
 
 var _ = types.Universe
 
-
 // c10R9: RecoverCluster (the operator's recovery path) rebuilds the FSM from
 // the newest usable snapshot plus every later log entry, writes a snapshot at
 // the position of the newest of the two carrying the given configuration, and
